@@ -256,6 +256,46 @@ theorem ban_lasts (f : Filter) (pb : PermitBan) (t0 d : Nat) (key : Nat) (ops : 
     obtain ⟨e, he, _⟩ := this
     rw [finalPass_banned _ _ now ip key hp (by rw [he]; rfl)]
 
+/-- The stages enforce the quotas and nothing else: with the filter enabled and a rate limiter
+configured, an unlisted IP passes the IP stage **iff** the per-IP limiter and then the total
+limiter accept the datagram (so the datagrams let through are among those the GCRA limiters
+accepted, to which `window_bound` applies, and a datagram within both quotas is never refused);
+an unlisted node id whose per-node limiter accepts passes the node stage unless the separate
+nodes-per-IP limit is configured, and a datagram the per-node limiter refuses never passes. -/
+theorem stages_enforce_exactly_the_quotas (f : Filter) (pb : PermitBan) (now : Nat) (ip : Ip)
+    (node : NodeId) (rl : RateLimiter) (he : f.enabled = true) (hr : f.rateLimiter = some rl) :
+    (pb.permitIps ip = false → (pb.banIps ip).isSome = false →
+      ((f.initialPass pb now ip).2.2 = true ↔
+        ((rl.allows now (.ip ip)).2.isOk = true ∧
+         ((rl.allows now (.ip ip)).1.allows now .total).2.isOk = true))) ∧
+    (pb.permitNodes node = false → (pb.banNodes node).isSome = false →
+      ((f.finalPass pb now ip node).2.2 = true → (rl.allows now (.nodeId node)).2.isOk = true) ∧
+      (f.maxNodesPerIp = none → (rl.allows now (.nodeId node)).2.isOk = true →
+        (f.finalPass pb now ip node).2.2 = true)) := by
+  constructor
+  · intro hp hb
+    unfold Filter.initialPass
+    rw [if_neg (by simp [hp]), if_neg (by simp [hb]), if_neg (by simp [he])]
+    simp only [hr]
+    cases hx : (rl.allows now (.ip ip)).2.isOk with
+    | false => simp
+    | true => simp
+  · intro hp hb
+    unfold Filter.finalPass
+    rw [if_neg (by simp [hp]), if_neg (by simp [hb]), if_neg (by simp [he])]
+    simp only [hr]
+    cases hx : (rl.allows now (.nodeId node)).2.isOk with
+    | false =>
+      simp only [Bool.not_false, if_true]
+      refine ⟨fun h => ?_, fun _ h => by cases h⟩
+      rw [(nodeExcess_spec _ pb now ip node).1] at h
+      cases h
+    | true =>
+      simp only [Bool.not_true, Bool.false_eq_true, if_false]
+      refine ⟨fun _ => trivial, fun hm _ => ?_⟩
+      unfold Filter.finalTail
+      simp only [hm]
+
 /-- Exemption: a datagram from a socket address with an outstanding expected response skips both
 filter stages — it is never dropped, and neither the filter nor the lists change. -/
 theorem exempt_bypasses (f : Filter) (pb : PermitBan) (now : Nat) (ip : Ip) (d : Decoded) :
